@@ -318,7 +318,7 @@ def check_dropout_stats(c, rec):
 
 
 def subchecks():
-    return [SubCheck("batchnorm", check_bn, bn_histories, quick=300, thorough=4000, shards_quick=4, shards_thorough=8),
-            SubCheck("dropout", check_dropout, dropout_histories, quick=400, thorough=5000, shards_quick=2, shards_thorough=4),
+    return [SubCheck("batchnorm", check_bn, bn_histories, quick=600, thorough=4000, shards_quick=6, shards_thorough=8),
+            SubCheck("dropout", check_dropout, dropout_histories, quick=700, thorough=5000, shards_quick=4, shards_thorough=4),
             SubCheck("dropout_statistics", check_dropout_stats, dropout_stat_cases, quick=40, thorough=600, shards_quick=2,
                      shards_thorough=4)]
